@@ -110,17 +110,20 @@ def bounded(ctx):
                     except Exception as e:
                         viol.append(dict(name="add_%s" % s, what="%s with x=%r raised %r, not TypeError" % (side, other, e),
                                          case=dict(seq=s, other=repr(other), side=side)))
-            # slices
+            # slices (the plasmid declared circular in any of the spellings the constructor accepts, or not at all)
+            spelled = [rec, CircularRecord(Seq(s), id="x", annotations={"topology": "Circular", "molecule_type": "DNA"}),
+                       CircularRecord(Seq(s), id="x", annotations={"topology": "CIRCULAR"}), rrecs[0]]
             for a in list(range(-n - 1, n + 2)) + [None]:
                 for b in list(range(-n - 1, n + 2)) + [None]:
-                    evals += 1
-                    sl = rec[a:b]
-                    ok = (type(sl) is SeqRecord and str(sl.seq) == s[a:b]
-                          and str(sl.annotations.get("topology", "linear")).lower() != "circular")
-                    if not ok:
-                        viol.append(dict(name="slice_%s_%s_%s" % (s, a, b), what="CircularRecord(%r)[%r:%r] -> %s %r topology=%r" % (
-                            s, a, b, type(sl).__name__, str(sl.seq), sl.annotations.get("topology")),
-                                         case=dict(seq=s, lo=a, hi=b), expected=s[a:b], observed=str(sl.seq)))
+                    for rec_ in (spelled if (a in (None, 0, 1) and b in (None, n, n - 1)) else spelled[:1]):
+                        evals += 1
+                        sl = rec_[a:b]
+                        ok = (type(sl) is SeqRecord and str(sl.seq) == s[a:b]
+                              and str(sl.annotations.get("topology", "linear")).lower() != "circular")
+                        if not ok:
+                            viol.append(dict(name="slice_%s_%s_%s" % (s, a, b), what="CircularRecord(%r, topology=%r)[%r:%r] -> %s %r topology=%r" % (
+                                s, rec_.annotations.get("topology"), a, b, type(sl).__name__, str(sl.seq), sl.annotations.get("topology")),
+                                             case=dict(seq=s, lo=a, hi=b, topology=rec_.annotations.get("topology")), expected=s[a:b], observed=str(sl.seq)))
             if len(samples) < 2 and n == 3:
                 samples.append(dict(seq=s, query=s[-1] + s[0], contained=(s[-1] + s[0]) in rec))
     # declared linear cannot be wrapped; wrapping copies
